@@ -186,6 +186,29 @@ Theorem C08_bad_counts_rejected : forall sub_ok sub_accepts c s n,
 Proof. intros so sa c s n H. apply nstep_fault. by apply bad_count_faults. Qed.
 Print Assumptions C08_bad_counts_rejected.
 
+(** Exactly which resizes are accepted: Alphabet-witnessed, a new count in
+    1..254 different from the current one, and no slot to be moved that holds
+    nothing ([nil_move]: the window is shorter than what has to be carried
+    over — only possible after an earlier enlargement whose new slots have not
+    been refilled yet; such a request is rejected atomically by
+    storage.Put(nil); observation, not a violation).  In particular with a
+    full window every valid resize is accepted. *)
+Theorem C08_resize_accept_iff : forall sub_ok sub_accepts cfg ops c n,
+  consecutive sub_ok sub_accepts (ninit cfg) ops = true ->
+  let '(s, h) := grun sub_ok sub_accepts cfg ops in
+  (exists s' ns, nexec sub_ok sub_accepts c s (UpdateSnapshotCount n) = Halt (s', ns)) <->
+  (alpha c = true /\ 1 <= n <= 254 /\ n <> count s /\
+   nil_move (count s) n (cur s) (win h) = false).
+Proof.
+  intros so sa cfg ops c n Hc. pose proof (grun_inv so sa cfg ops Hc) as Hi.
+  destruct (grun so sa cfg ops) as [s h]. apply resize_accept_iff. apply Hi.
+Qed.
+Print Assumptions C08_resize_accept_iff.
+
+Theorem C08_full_window_resizable : forall old n id, 0 <= id < old -> nil_move old n id old = false.
+Proof. intros old n id Hid. unfold nil_move. destruct (old <? n), (id <? n); lia. Qed.
+Print Assumptions C08_full_window_resizable.
+
 (** Non-vacuity: 12 consecutive epochs with a distinct legacy candidate per
     epoch, shrink 10 -> 4 (ring index 2 < 4: "K2"), 1 epoch, shrink 4 -> 2
     (ring index 3 >= 2: "K1"), enlarge to 6, 2 epochs; a resize that would have
